@@ -147,6 +147,8 @@ class Models:
         models_pp.register(self)
         models_more.register(self)
         models_more.register2(self)
+        from . import models_2d
+        models_2d.install(self)
 
     # -------------------------------------------------------------------------------------------
     # imports
